@@ -116,6 +116,22 @@ mkarraytype(struct type *base, enum typequal qual, unsigned long long len)
 	return t;
 }
 
+/*
+an array of unknown size is completed in place by its initializer; the
+type may be shared (typedef name, typeof), so a private copy is completed
+*/
+struct type *
+unsharearray(struct type *t)
+{
+	struct type *c;
+
+	if (t->kind != TYPEARRAY || !t->incomplete)
+		return t;
+	c = mktype(TYPEARRAY, t->prop);
+	*c = *t;
+	return c;
+}
+
 static int
 typerank(struct type *t)
 {
